@@ -60,11 +60,16 @@ Proof. apply hkind_eqb_eq. reflexivity. Qed.
 Lemma idk_eqb_eq a b : idk_eqb a b = true <-> a = b.
 Proof. destruct a, b; simpl; split; intro H; try discriminate; reflexivity. Qed.
 
+Lemma tkind_eqb_eq a b : tkind_eqb a b = true <-> a = b.
+Proof. destruct a, b; simpl; split; intro H; try discriminate; reflexivity. Qed.
+
 (* ------------------------------------------------------------------ projections of the list fields *)
 Definition wq (s : state) : list welem := map (fun x => fst (fst x)) (sendq s).
 Definition hk (s : state) : list hkind := map fst (handlers s).
 Definition ik (s : state) : list idk := map fst (idhandlers s).
+Definition tk (s : state) : list tkind := map (fun x => fst (fst x)) (timed s).
 Definition sw (s : state) : list welem := map (fun x => fst (fst (fst x))) (smq s).
+Definition live (s : state) : Prop := st s <> Disconnected.
 
 Lemma h_has_In k s : h_has k s = true <-> In k (hk s).
 Proof.
@@ -73,12 +78,6 @@ Proof.
   - intro H. apply in_map_iff in H as [x [E Hin]]. exists x. split; [exact Hin|].
     apply hkind_eqb_eq. symmetry. exact E.
 Qed.
-Lemma h_has_false k s : h_has k s = false <-> ~ In k (hk s).
-Proof.
-  rewrite <- h_has_In. destruct (h_has k s); split; intro H; try reflexivity; try discriminate.
-  - exfalso. apply H. reflexivity.
-  - intro A. discriminate.
-Qed.
 Lemma id_has_In k s : id_has k s = true <-> In k (ik s).
 Proof.
   unfold id_has, ik. rewrite existsb_exists. split.
@@ -86,24 +85,32 @@ Proof.
   - intro H. apply in_map_iff in H as [x [E Hin]]. exists x. split; [exact Hin|].
     apply idk_eqb_eq. symmetry. exact E.
 Qed.
+Lemma timed_has_In k s : timed_has k s = true <-> In k (tk s).
+Proof.
+  unfold timed_has, tk. rewrite existsb_exists. split.
+  - intros [x [Hin He]]. apply tkind_eqb_eq in He. subst. apply (in_map (fun x => fst (fst x))). exact Hin.
+  - intro H. apply in_map_iff in H as [x [E Hin]]. exists x. split; [exact Hin|].
+    apply tkind_eqb_eq. symmetry. exact E.
+Qed.
 
-Lemma map_fst_filter {A B} (p : A -> bool) (l : list (A * B)) :
-  map fst (filter (fun x => p (fst x)) l) = filter p (map fst l).
+Lemma map_filter_proj {A B} (f : A -> B) (p : B -> bool) (l : list A) :
+  map f (filter (fun x => p (f x)) l) = filter p (map f l).
 Proof.
   induction l as [|x r IH]; simpl; [reflexivity|].
-  destruct (p (fst x)); simpl; rewrite IH; reflexivity.
+  destruct (p (f x)); simpl; rewrite IH; reflexivity.
 Qed.
 
 (* ------------------------------------------------------------------ field tags and frames *)
 Inductive fld : Type :=
 | Fdis | Fmand | Flssl | Flauth | Ftyp | Fraw | Fcert | Fjnode | Fst | Fsec | Ftlsp | Ftlsf | Ftlss
-| Fsasl | Fsme | Frp | Foh | Fps | Fh | Fid | Fsq | Fsmq | Fgh | Fcr.
+| Fsasl | Fsme | Frp | Foh | Fps | Fh | Fid | Ft | Fsq | Fsmq | Fgs | Fgf | Fcr.
 
 Definition fld_n (f : fld) : nat :=
   match f with
   | Fdis => 0 | Fmand => 1 | Flssl => 2 | Flauth => 3 | Ftyp => 4 | Fraw => 5 | Fcert => 6 | Fjnode => 7
   | Fst => 8 | Fsec => 9 | Ftlsp => 10 | Ftlsf => 11 | Ftlss => 12 | Fsasl => 13 | Fsme => 14 | Frp => 15
-  | Foh => 16 | Fps => 17 | Fh => 18 | Fid => 19 | Fsq => 20 | Fsmq => 21 | Fgh => 22 | Fcr => 23
+  | Foh => 16 | Fps => 17 | Fh => 18 | Fid => 19 | Ft => 20 | Fsq => 21 | Fsmq => 22 | Fgs => 23 | Fgf => 24
+  | Fcr => 25
   end%nat.
 Definition fmem (f : fld) (l : list fld) : bool := existsb (fun g => Nat.eqb (fld_n f) (fld_n g)) l.
 
@@ -129,9 +136,11 @@ Definition eq_on (f : fld) (s s' : state) : Prop :=
   | Fps => ps s' = ps s
   | Fh => hk s' = hk s
   | Fid => ik s' = ik s
-  | Fsq => wq s' = wq s
+  | Ft => tk s' = tk s
+  | Fsq => sendq s' = sendq s
   | Fsmq => sw s' = sw s
-  | Fgh => gh s' = gh s
+  | Fgs => g_strong (gh s') = g_strong (gh s)
+  | Fgf => g_feat_seen (gh s') = g_feat_seen (gh s)
   | Fcr => crashed s' = crashed s
   end.
 
@@ -139,10 +148,12 @@ Definition frame (chg : list fld) (s s' : state) : Prop := forall f, fmem f chg 
 
 Lemma frame_refl c s : frame c s s.
 Proof. intros f _. destruct f; reflexivity. Qed.
+Lemma eq_on_trans f s s1 s2 : eq_on f s s1 -> eq_on f s1 s2 -> eq_on f s s2.
+Proof. destruct f; cbn [eq_on]; congruence. Qed.
 Lemma frame_trans c1 c2 s s1 s2 : frame c1 s s1 -> frame c2 s1 s2 -> frame (c1 ++ c2) s s2.
 Proof.
   intros H1 H2 f Hf. unfold fmem in Hf. rewrite existsb_app in Hf. apply orb_false_iff in Hf as [A B].
-  specialize (H1 f A). specialize (H2 f B). destruct f; cbn [eq_on] in *; congruence.
+  eapply eq_on_trans; [apply H1; exact A|apply H2; exact B].
 Qed.
 Lemma frame_weaken c c' s s' : (forall f, fmem f c' = false -> fmem f c = false) -> frame c s s' -> frame c' s s'.
 Proof. intros W H f Hf. apply H. apply W. exact Hf. Qed.
@@ -162,225 +173,136 @@ Ltac fr_one H t :=
 Ltac fr H :=
   fr_one H Fdis; fr_one H Fmand; fr_one H Flssl; fr_one H Flauth; fr_one H Ftyp; fr_one H Fraw; fr_one H Fcert;
   fr_one H Fjnode; fr_one H Fst; fr_one H Fsec; fr_one H Ftlsp; fr_one H Ftlsf; fr_one H Ftlss; fr_one H Fsasl;
-  fr_one H Fsme; fr_one H Frp; fr_one H Foh; fr_one H Fps; fr_one H Fh; fr_one H Fid; fr_one H Fsq; fr_one H Fsmq;
-  fr_one H Fgh; fr_one H Fcr.
+  fr_one H Fsme; fr_one H Frp; fr_one H Foh; fr_one H Fps; fr_one H Fh; fr_one H Fid; fr_one H Ft; fr_one H Fsq;
+  fr_one H Fsmq; fr_one H Fgs; fr_one H Fgf; fr_one H Fcr.
 
 (* ------------------------------------------------------------------ effects *)
-Definition sq_ext (P : welem -> Prop) (s s' : state) : Prop :=
-  exists l, wq s' = wq s ++ l /\ Forall (fun w => P w \/ In w (sw s)) l.
+Definition DISC : list fld := [Fst; Ftlsp; Fsme].
+Definition entry : Type := (welem * bool * bool)%type.
+
+Record preds : Type := mkP {
+  pw : entry -> Prop;       (* what may be appended to the send queue *)
+  ph : hkind -> Prop;       (* which stanza handlers may be added *)
+  pid : idk -> Prop;        (* which id handlers may be added *)
+  pt : tkind -> Prop        (* which timed handlers may be added *)
+}.
+Definition pnone : preds := mkP (fun _ => False) (fun _ => False) (fun _ => False) (fun _ => False).
+Definition pimp (p q : preds) : Prop :=
+  (forall x, pw p x -> pw q x) /\ (forall x, ph p x -> ph q x) /\ (forall x, pid p x -> pid q x) /\ (forall x, pt p x -> pt q x).
+Lemma pimp_refl p : pimp p p.
+Proof. repeat split; auto. Qed.
+Lemma pimp_none q : pimp pnone q.
+Proof. repeat split; cbn; tauto. Qed.
+
+Definition sq_ext (P : entry -> Prop) (s s' : state) : Prop :=
+  exists l, sendq s' = sendq s ++ l /\ Forall (fun x => P x \/ In (fst (fst x)) (sw s)) l.
 Definition h_sub (P : hkind -> Prop) (s s' : state) : Prop := forall k, In k (hk s') -> In k (hk s) \/ P k.
 Definition i_sub (P : idk -> Prop) (s s' : state) : Prop := forall k, In k (ik s') -> In k (ik s) \/ P k.
+Definition t_sub (P : tkind -> Prop) (s s' : state) : Prop := forall k, In k (tk s') -> In k (tk s) \/ P k.
 Definition smq_sub (s s' : state) : Prop := forall w, In w (sw s') -> In w (sw s).
 
-Record eff (c : list fld) (Pw : welem -> Prop) (Ph : hkind -> Prop) (Pi : idk -> Prop) (s s' : state) : Prop := mkEff {
-  ef_frame : frame c s s';
-  ef_sq : sq_ext Pw s s';
-  ef_h : h_sub Ph s s';
-  ef_i : i_sub Pi s s';
+Record eff (c : list fld) (p : preds) (s s' : state) : Prop := mkEff {
+  ef_U : frame (c ++ DISC) s s';
+  ef_L : live s' -> frame c s s';
+  ef_st : st s' = st s \/ st s' = Disconnected;
+  ef_sme : fmem Fsme c = false -> sm_enabled s' = sm_enabled s \/ sm_enabled s' = false;
+  ef_sq : sq_ext (pw p) s s';
+  ef_h : h_sub (ph p) s s';
+  ef_i : i_sub (pid p) s s';
+  ef_t : t_sub (pt p) s s';
   ef_smq : smq_sub s s'
 }.
 
-Definition noW : welem -> Prop := fun _ => False.
-Definition noH : hkind -> Prop := fun _ => False.
-Definition noI : idk -> Prop := fun _ => False.
+Lemma fmem_app f a b : fmem f (a ++ b) = fmem f a || fmem f b.
+Proof. unfold fmem. apply existsb_app. Qed.
 
-Lemma sq_ext_refl P s : sq_ext P s s.
-Proof. exists []. rewrite app_nil_r. split; [reflexivity|constructor]. Qed.
-Lemma sq_ext_same P s s' : wq s' = wq s -> sq_ext P s s'.
+Lemma sq_ext_same P s s' : sendq s' = sendq s -> sq_ext P s s'.
 Proof. intro E. exists []. rewrite app_nil_r. split; [exact E|constructor]. Qed.
 Lemma h_sub_same P s s' : hk s' = hk s -> h_sub P s s'.
 Proof. intros E k H. left. rewrite <- E. exact H. Qed.
 Lemma i_sub_same P s s' : ik s' = ik s -> i_sub P s s'.
 Proof. intros E k H. left. rewrite <- E. exact H. Qed.
+Lemma t_sub_same P s s' : tk s' = tk s -> t_sub P s s'.
+Proof. intros E k H. left. rewrite <- E. exact H. Qed.
 Lemma smq_sub_same s s' : sw s' = sw s -> smq_sub s s'.
 Proof. intros E k H. rewrite <- E. exact H. Qed.
 
-Lemma eff_refl c Pw Ph Pi s : eff c Pw Ph Pi s s.
+Lemma live_back s s' : st s' = st s \/ st s' = Disconnected -> live s' -> live s /\ st s' = st s.
+Proof. unfold live. intros [A|A] L; [split; congruence|contradiction]. Qed.
+
+Lemma eff_refl c p s : eff c p s s.
 Proof.
-  constructor; [apply frame_refl|apply sq_ext_refl| | |]; intros k H; auto.
+  constructor; try (intros k H; auto; fail).
+  - apply frame_refl.
+  - intros _. apply frame_refl.
+  - left. reflexivity.
+  - intros _. left. reflexivity.
+  - apply sq_ext_same. reflexivity.
 Qed.
 
-Lemma eff_trans c1 c2 Pw Ph Pi s s1 s2 :
-  eff c1 Pw Ph Pi s s1 -> eff c2 Pw Ph Pi s1 s2 -> eff (c1 ++ c2) Pw Ph Pi s s2.
+Lemma eff_trans c1 c2 p s s1 s2 : eff c1 p s s1 -> eff c2 p s1 s2 -> eff (c1 ++ c2) p s s2.
 Proof.
-  intros [F1 [l1 [E1 A1]] H1 I1 M1] [F2 [l2 [E2 A2]] H2 I2 M2]. constructor.
-  - eapply frame_trans; eassumption.
+  intros [U1 L1 S1 E1 [l1 [Q1 A1]] H1 I1 T1 M1] [U2 L2 S2 E2 [l2 [Q2 A2]] H2 I2 T2 M2]. constructor.
+  - eapply frame_weaken; [|eapply frame_trans; [exact U1|exact U2]].
+    intros f Hf. rewrite !fmem_app in *.
+    destruct (fmem f c1), (fmem f c2), (fmem f DISC); simpl in *; congruence.
+  - intros Lv. destruct (live_back _ _ S2 Lv) as [Lv1 _].
+    eapply frame_trans; [apply L1; exact Lv1|apply L2; exact Lv].
+  - destruct S2 as [A|A]; [rewrite A; exact S1|right; exact A].
+  - intro Hf. rewrite fmem_app in Hf. apply orb_false_iff in Hf as [Fa Fb].
+    destruct (E1 Fa) as [A|A], (E2 Fb) as [B|B]; try (right; congruence); left; congruence.
   - exists (l1 ++ l2). split.
-    + rewrite E2, E1, app_assoc. reflexivity.
+    + rewrite Q2, Q1, app_assoc. reflexivity.
     + apply Forall_app. split; [exact A1|].
       eapply Forall_impl; [|exact A2]. intros w [A|A]; [left; exact A|right; apply M1; exact A].
   - intros k Hk. destruct (H2 k Hk) as [A|A]; [apply H1; exact A|right; exact A].
   - intros k Hk. destruct (I2 k Hk) as [A|A]; [apply I1; exact A|right; exact A].
+  - intros k Hk. destruct (T2 k Hk) as [A|A]; [apply T1; exact A|right; exact A].
   - intros w Hw. apply M1, M2, Hw.
 Qed.
 
-Lemma eff_weaken c c' (Pw Pw' : welem -> Prop) (Ph Ph' : hkind -> Prop) (Pi Pi' : idk -> Prop) s s' :
-  (forall f, fmem f c' = false -> fmem f c = false) ->
-  (forall w, Pw w -> Pw' w) -> (forall k, Ph k -> Ph' k) -> (forall k, Pi k -> Pi' k) ->
-  eff c Pw Ph Pi s s' -> eff c' Pw' Ph' Pi' s s'.
+Lemma eff_weaken c c' p q s s' :
+  (forall f, fmem f c' = false -> fmem f c = false) -> pimp p q -> eff c p s s' -> eff c' q s s'.
 Proof.
-  intros W WW WH WI [F [l [E A]] H I M]. constructor.
-  - eapply frame_weaken; eassumption.
-  - exists l. split; [exact E|]. eapply Forall_impl; [|exact A]. intros w [B|B]; [left; auto|right; exact B].
+  intros W [WW [WH [WI WT]]] [U L S E [l [Q A]] H I T M]. constructor.
+  - eapply frame_weaken; [|exact U]. intros f Hf. rewrite fmem_app in *.
+    apply orb_false_iff in Hf as [X Y]. rewrite (W f X), Y. reflexivity.
+  - intro Lv. eapply frame_weaken; [exact W|apply L; exact Lv].
+  - exact S.
+  - intro Hf. apply E. apply W. exact Hf.
+  - exists l. split; [exact Q|]. eapply Forall_impl; [|exact A]. intros w [B|B]; [left; auto|right; exact B].
   - intros k Hk. destruct (H k Hk); auto.
   - intros k Hk. destruct (I k Hk); auto.
+  - intros k Hk. destruct (T k Hk); auto.
   - exact M.
 Qed.
 
-(* an effect proved from a pure frame (nothing tagged Fsq/Fh/Fid/Fsmq changes) *)
-Lemma eff_of_frame c Pw Ph Pi s s' :
-  frame c s s' -> fmem Fsq c = false -> fmem Fh c = false -> fmem Fid c = false -> fmem Fsmq c = false ->
-  eff c Pw Ph Pi s s'.
+(* sequencing with weakening to a common (c, p) *)
+Lemma eff_seq c p c1 p1 c2 p2 s s1 s2 :
+  eff c1 p1 s s1 -> eff c2 p2 s1 s2 ->
+  (forall f, fmem f c = false -> fmem f (c1 ++ c2) = false) -> pimp p1 p -> pimp p2 p -> eff c p s s2.
 Proof.
-  intros F A B C D. constructor; [exact F| | | |].
+  intros A B W P1 P2. eapply eff_weaken; [exact W|apply pimp_refl|].
+  eapply eff_trans; (eapply eff_weaken; [| |eassumption]; [intros f Hf; exact Hf|assumption]).
+Qed.
+
+(* an effect proved from a pure frame (no tagged list field changes, no disconnect) *)
+Lemma eff_of_frame c p s s' :
+  frame c s s' -> fmem Fsq c = false -> fmem Fh c = false -> fmem Fid c = false -> fmem Ft c = false ->
+  fmem Fsmq c = false -> fmem Fst c = false -> (fmem Fsme c = false -> sm_enabled s' = sm_enabled s) ->
+  eff c p s s'.
+Proof.
+  intros F A B C D E G Hs. constructor.
+  - eapply frame_weaken; [|exact F]. intros f Hf. rewrite fmem_app in Hf. apply orb_false_iff in Hf. tauto.
+  - intros _. exact F.
+  - left. exact (F Fst G).
+  - intro X. left. apply Hs. exact X.
   - apply sq_ext_same. exact (F Fsq A).
   - apply h_sub_same. exact (F Fh B).
   - apply i_sub_same. exact (F Fid C).
-  - apply smq_sub_same. exact (F Fsmq D).
+  - apply t_sub_same. exact (F Ft D).
+  - apply smq_sub_same. exact (F Fsmq E).
 Qed.
-Ltac eff_frame := apply eff_of_frame; [solve_frame|reflexivity|reflexivity|reflexivity|reflexivity].
-
-(* ------------------------------------------------------------------ primitive functions *)
-Lemma wq_set_sendq v s : wq (set_sendq v s) = map (fun x => fst (fst x)) v.
-Proof. reflexivity. Qed.
-
-Lemma q_append_eff w u m s : eff [Fsq] (fun x => x = w \/ x = WReq) noH noI s (q_append w u m s).
-Proof.
-  unfold q_append. cbv zeta. break_if.
-  - constructor; [solve_frame| | | |]; try (intros k H; left; exact H).
-    exists [w; WReq]. split.
-    + unfold wq. simpl. rewrite !map_app. simpl. rewrite <- app_assoc. reflexivity.
-    + repeat constructor; auto.
-  - constructor; [solve_frame| | | |]; try (intros k H; left; exact H).
-    exists [w]. split.
-    + unfold wq. simpl. rewrite !map_app. reflexivity.
-    + repeat constructor; auto.
-Qed.
-
-Lemma send_gated_eff w u m s : eff [Fsq] (fun x => x = w \/ x = WReq) noH noI s (send_gated w u m s).
-Proof. unfold send_gated. break_if; [apply q_append_eff|apply eff_refl]. Qed.
-Lemma send_raw_m_eff w u m s : eff [Fsq] (fun x => x = w \/ x = WReq) noH noI s (send_raw_m w u m s).
-Proof. unfold send_raw_m. break_match; try apply q_append_eff; apply eff_refl. Qed.
-
-Lemma timed_add_eff k now s Pw Ph Pi : eff [] Pw Ph Pi s (timed_add k now s).
-Proof. unfold timed_add. break_if; [apply eff_refl|eff_frame]. Qed.
-Lemma timed_del_eff k s Pw Ph Pi : eff [] Pw Ph Pi s (timed_del k s).
-Proof. unfold timed_del. eff_frame. Qed.
-Lemma timed_reset_all_eff now s Pw Ph Pi : eff [] Pw Ph Pi s (timed_reset_all now s).
-Proof. unfold timed_reset_all. eff_frame. Qed.
-Lemma timed_set_stamp_eff k now s Pw Ph Pi : eff [] Pw Ph Pi s (timed_set_stamp k now s).
-Proof. unfold timed_set_stamp. eff_frame. Qed.
-
-Lemma hk_h_add k s : hk (h_add k s) = hk s \/ hk (h_add k s) = hk s ++ [k].
-Proof.
-  unfold h_add. break_if; [left; reflexivity|right]. unfold hk. simpl. rewrite map_app. reflexivity.
-Qed.
-Lemma In_hk_h_add k k' s : In k' (hk (h_add k s)) <-> In k' (hk s) \/ k' = k.
-Proof.
-  unfold h_add. destruct (h_has k s) eqn:E.
-  - split; [auto|]. intros [A|A]; [exact A|]. subst. apply h_has_In. exact E.
-  - unfold hk. simpl. rewrite map_app, in_app_iff. simpl. intuition.
-Qed.
-Lemma h_add_eff k s : eff [Fh] noW (fun x => x = k) noI s (h_add k s).
-Proof.
-  constructor.
-  - unfold h_add. break_if; [apply frame_refl|solve_frame].
-  - apply sq_ext_same. unfold h_add. break_if; reflexivity.
-  - intros k' H. apply In_hk_h_add in H. exact H.
-  - apply i_sub_same. unfold h_add. break_if; reflexivity.
-  - apply smq_sub_same. unfold h_add. break_if; reflexivity.
-Qed.
-
-Lemma In_hk_h_del k k' s : In k' (hk (h_del k s)) <-> In k' (hk s) /\ k' <> k.
-Proof.
-  unfold h_del, hk. simpl.
-  rewrite (map_fst_filter (fun x => negb (hkind_eqb k x))). rewrite filter_In.
-  split; intros [A B]; split; try exact A.
-  - intro E. subst. rewrite hkind_eqb_refl in B. discriminate.
-  - destruct (hkind_eqb k k') eqn:E; [|reflexivity]. apply hkind_eqb_eq in E. congruence.
-Qed.
-Lemma h_del_eff k s Pw Ph Pi : eff [Fh] Pw Ph Pi s (h_del k s).
-Proof.
-  constructor.
-  - unfold h_del. solve_frame.
-  - apply sq_ext_same. reflexivity.
-  - intros k' H. apply In_hk_h_del in H. left. tauto.
-  - apply i_sub_same. reflexivity.
-  - apply smq_sub_same. reflexivity.
-Qed.
-
-Lemma In_ik_id_add k k' s : In k' (ik (id_add k s)) <-> In k' (ik s) \/ k' = k.
-Proof.
-  unfold id_add. destruct (id_has k s) eqn:E.
-  - split; [auto|]. intros [A|A]; [exact A|]. subst. apply id_has_In. exact E.
-  - unfold ik. simpl. rewrite map_app, in_app_iff. simpl. intuition.
-Qed.
-Lemma id_add_eff k s : eff [Fid] noW noH (fun x => x = k) s (id_add k s).
-Proof.
-  constructor.
-  - unfold id_add. break_if; [apply frame_refl|solve_frame].
-  - apply sq_ext_same. unfold id_add. break_if; reflexivity.
-  - apply h_sub_same. unfold id_add. break_if; reflexivity.
-  - intros k' H. apply In_ik_id_add in H. exact H.
-  - apply smq_sub_same. unfold id_add. break_if; reflexivity.
-Qed.
-Lemma id_del_eff k s Pw Ph Pi : eff [Fid] Pw Ph Pi s (id_del k s).
-Proof.
-  constructor.
-  - unfold id_del. solve_frame.
-  - apply sq_ext_same. reflexivity.
-  - apply h_sub_same. reflexivity.
-  - intros k' H. left. unfold id_del, ik in *. simpl in H.
-    rewrite (map_fst_filter (fun x => negb (idk_eqb k x))) in H. apply filter_In in H. tauto.
-  - apply smq_sub_same. reflexivity.
-Qed.
-
-Lemma upg_eff f s Pw Ph Pi : eff [Fgh] Pw Ph Pi s (upg f s).
-Proof. unfold upg. eff_frame. Qed.
-Lemma note_rx_eff e s Pw Ph Pi : eff [Fgh] Pw Ph Pi s (note_rx e s).
-Proof. unfold note_rx. cbv zeta. eff_frame. Qed.
-Lemma note_outs_eff o s Pw Ph Pi : eff [Fgh] Pw Ph Pi s (note_outs o s).
-Proof. unfold note_outs. eff_frame. Qed.
-
-Lemma prepare_reset_eff h s Pw Ph Pi : eff [Foh; Frp] Pw Ph Pi s (prepare_reset h s).
-Proof. unfold prepare_reset. eff_frame. Qed.
-Lemma prepare_reset_oh h s : oh (prepare_reset h s) = h.
-Proof. reflexivity. Qed.
-Lemma prepare_reset_rp h s : reset_parser (prepare_reset h s) = true.
-Proof. reflexivity. Qed.
-
-Lemma reset_sm_eff s Pw Ph Pi : eff [Fsme] Pw Ph Pi s (reset_sm_for_reconnect s).
-Proof. unfold reset_sm_for_reconnect. cbv zeta. break_if; eff_frame. Qed.
-Lemma reset_sm_sme s : sm_enabled (reset_sm_for_reconnect s) = false.
-Proof. unfold reset_sm_for_reconnect. cbv zeta. break_if; reflexivity. Qed.
-
-Lemma drop_below_incl h q x : In x (drop_below h q) -> In x q.
-Proof.
-  induction q as [|y r IH]; simpl; [auto|]. destruct (snd y <? h); [intro H; right; auto|auto].
-Qed.
-Lemma sm_queue_cleanup_eff h s Pw Ph Pi : eff [Fsmq] Pw Ph Pi s (sm_queue_cleanup h s).
-Proof.
-  constructor.
-  - unfold sm_queue_cleanup. solve_frame.
-  - apply sq_ext_same. reflexivity.
-  - apply h_sub_same. reflexivity.
-  - apply i_sub_same. reflexivity.
-  - intros w H. unfold sm_queue_cleanup, sw in *. simpl in H.
-    apply in_map_iff in H as [x [E Hin]]. apply drop_below_incl in Hin. subst. apply in_map. exact Hin.
-Qed.
-
-(* _sm_queue_resend: what it appends comes from the SM queue *)
-Lemma sm_queue_resend_eff s : eff [Fsq; Fsmq] noW noH noI s (sm_queue_resend s).
-Proof.
-  unfold sm_queue_resend.
-  assert (G : forall q a, eff [Fsq] (fun w => In w (map (fun x => fst (fst (fst x))) q)) noH noI a
-            (fold_left (fun a x => send_raw_m (fst (fst (fst x))) (snd (fst (fst x))) (snd (fst x)) a) q a)).
-  { induction q as [|x r IH]; intro a; simpl; [apply eff_refl|].
-    change [Fsq] with ([Fsq] ++ [Fsq]) at 1. eapply eff_trans.
-    - eapply eff_weaken; [| | | |apply send_raw_m_eff]; try solve_sub; try tauto.
-      intros w [A|A]; [left; auto|].
-      (* WReq piggy-back: not from the queue; handled by the caller's predicate *)
-      right. exact A.
-    - eapply eff_weaken; [| | | |apply IH]; try solve_sub; try tauto.
-      intros w A. right. exact A. }
-  Abort.
+Ltac eff_frame :=
+  apply eff_of_frame; [solve_frame|reflexivity|reflexivity|reflexivity|reflexivity|reflexivity|reflexivity|
+                       first [intros _; reflexivity | let X := fresh in intro X; discriminate X]].
